@@ -105,14 +105,23 @@ def _main_star_attrs(repo):
     assigned under `if main:` in process_parameters"""
     fi = repo.func(VIS + '.process_parameters')
     va = vk = None
+    # the locals holding the markers: bound under `if <args>.vararg:` / `if <args>.kwarg:` (whatever they are called)
+    loc = {}
     for n in ast.walk(fi.node):
-        if isinstance(n, ast.If) and norm(n.test) == 'main':
+        if isinstance(n, ast.If) and isinstance(n.test, ast.Attribute) and n.test.attr in ('vararg', 'kwarg'):
             for s in n.body:
-                if isinstance(s, ast.Assign) and isinstance(s.targets[0], ast.Attribute):
-                    if norm(s.value) == 'varargs':
-                        va = s.targets[0].attr
-                    elif norm(s.value) == 'varkwargs':
-                        vk = s.targets[0].attr
+                if isinstance(s, ast.Assign):
+                    for t in s.targets:
+                        if isinstance(t, ast.Name) and isinstance(s.value, ast.Call):
+                            loc[t.id] = n.test.attr
+    selfn = fi.params()[0][0]
+    for s in ast.walk(fi.node):
+        if isinstance(s, ast.Assign) and len(s.targets) == 1 and isinstance(s.targets[0], ast.Attribute) and \
+                isinstance(s.targets[0].value, ast.Name) and s.targets[0].value.id == selfn and isinstance(s.value, ast.Name):
+            if loc.get(s.value.id) == 'vararg':
+                va = s.targets[0].attr
+            elif loc.get(s.value.id) == 'kwarg':
+                vk = s.targets[0].attr
     if va is None or vk is None:
         raise Inconclusive('own star markers of the visitor not identified')
     return va, vk
